@@ -383,6 +383,22 @@ def load_known():
     return json.load(open(p)).get("findings", [])
 
 
+def coqchk(prop_file):
+    """coqchk -o on GV.Props.<prop_file>: True iff it succeeds and reports no axioms, no type-in-type, no
+    unsafe fixpoints, no assumed positivity."""
+    try:
+        p = subprocess.run(["coqchk", "-o", "-silent", "-Q", ".", "GV", "GV.Props." + prop_file], cwd=COQ,
+                           stdout=subprocess.PIPE, stderr=subprocess.STDOUT, timeout=3000, text=True, env=ENV)
+    except subprocess.TimeoutExpired:
+        return False, "coqchk timed out"
+    out = p.stdout
+    flat = " ".join(out.split())
+    good = (p.returncode == 0 and "* Axioms: <none>" in flat
+            and "relying on type-in-type: <none>" in flat and "unsafe (co)fixpoints: <none>" in flat
+            and "positivity is assumed: <none>" in flat)
+    return good, out
+
+
 class Check:
     """State of one property check run."""
 
@@ -430,6 +446,11 @@ class Check:
                     closed = txt.startswith("Closed under the global context")
                     self.obligation(f"theorem {t} (Props/{prop_file}.v) checks; assumptions: {txt[:80]}", closed,
                                     "" if closed else "unexpected assumptions: " + txt[:300])
+            if ok and self.tier == "thorough":
+                # independent re-check of the compiled property file and everything it depends on
+                cok, cout = coqchk(prop_file)
+                self.obligation(f"coqchk re-checks Props/{prop_file}.vo and its dependencies; axioms: none", cok,
+                                cout[-400:] if not cok else "")
             self.model_ok = self.harness_ok = True
             if need_model:
                 if ok:
